@@ -36,11 +36,40 @@ namespace sim
       template< typename In >
       void run_prog( int prog, In& in, RunResult& out )
       {
-         if( prog == 1 ) {
-            run_with< 1 >( in, out );
+         switch( prog ) {
+            case 1: run_with< 1 >( in, out ); break;
+            case 2: run_with< 2 >( in, out ); break;
+            case 3: run_with< 3 >( in, out ); break;
+            case 4: run_with< 4 >( in, out ); break;
+            default: run_with< 5 >( in, out ); break;
+         }
+      }
+
+      template< int K >
+      void run_eol_k( bool buffer, const Case& c, RunResult& out )
+      {
+         if( buffer ) {
+            typename io_input< K + 4 >::type in( "sim", c.maximum );
+            g_buf.base = const_cast< char* >( in.current() );
+            g_buf.capacity = in.buffer_capacity();
+            g_buf.shifted = 0;
+            run_with< 2 >( in, out );
+            g_buf.base = nullptr;
          }
          else {
+            typename io_input< K >::type in( W.arena, W.arena + W.xlen, "sim" );
             run_with< 2 >( in, out );
+         }
+      }
+
+      void run_eol( int io_class, const Case& c, RunResult& out )
+      {
+         const bool buffer = ( io_class <= IO_BUF_LF );
+         switch( ( io_class - IO_BUF_CR ) % 4 ) {
+            case 0: run_eol_k< 4 >( buffer, c, out ); break;
+            case 1: run_eol_k< 5 >( buffer, c, out ); break;
+            case 2: run_eol_k< 6 >( buffer, c, out ); break;
+            default: run_eol_k< 7 >( buffer, c, out ); break;
          }
       }
 
@@ -63,6 +92,7 @@ namespace sim
       W.faults = c.faults;
       W.reads = c.reads;
       W.vetoseed = c.vetoseed;
+      W.short_by = c.short_by;
       W.fuel_events = 600000;
       W.xlen = c.input.size();
       if( W.xlen > ARENA - 2 * GUARD ) {
@@ -135,6 +165,16 @@ namespace sim
                std::fclose( f );
                break;
             }
+            case IO_BUF_CR:
+            case IO_BUF_CRLF:
+            case IO_BUF_CR_CRLF:
+            case IO_BUF_LF:
+            case IO_MEM_CR:
+            case IO_MEM_CRLF:
+            case IO_MEM_CR_CRLF:
+            case IO_MEM_LF:
+               run_eol( io_class, c, out );
+               break;
             default: {
                sim_streambuf sb;
                std::istream is( &sb );
@@ -158,6 +198,7 @@ namespace sim
       out.max_depth = W.max_open_depth;
       out.hash = history_hash( out.h, out.excs );
       W.fuel_events = 20000;
+      W.short_by = 0;
       return out;
    }
 
